@@ -119,6 +119,7 @@ type Explorer struct {
 	NValidate   int
 	Seed        int64
 	Fix         map[string]uint64
+	PinRest     bool // inputs without a pinned value are 0 (set by vPin; concrete corpus instances)
 	SkipKnown   map[string]bool
 	Params      map[string]int
 
@@ -554,7 +555,11 @@ func (x *Explorer) input(name string, w int) Value {
 	t := x.st().Var(name, w)
 	x.inputSet[name] = t
 	x.inputs = append(x.inputs, InputRec{Name: name, W: w})
-	if fv, ok := x.Fix[name]; ok {
+	fv, ok := x.Fix[name]
+	if !ok && x.PinRest {
+		fv, ok = 0, true
+	}
+	if ok {
 		if w == 0 {
 			x.assume(x.In.simp(x.st().Eq(t, x.st().Bool(fv == 1))))
 		} else {
